@@ -60,7 +60,7 @@ fn main() {
     let mut panics: Vec<String> = vec![];
     for gi in 0..o.n {
         let allow_bang = r.chance(1, 4);
-        let cfg = if bang_always { gen_cfg_recovery(&mut r) } else { gen_cfg(&mut r, allow_bang) };
+        let cfg = if bang_always { gen_cfg_recovery(&mut r) } else { gen_cfg_indexed(&mut r, gi, allow_bang || gi < n_templates()) };
         h.hit(&format!("origin:{}", cfg.origin.split('+').next().unwrap()));
         for algo in ["lane", "lr1", "lalr"] {
             let mut cfg2 = cfg.clone();
@@ -279,6 +279,7 @@ fn main() {
                             }
                         }
                     }
+                    ctxfile.push_str(&format!("{}\tcorrupt-{}\t{}\t{}\n", st.count, algo, a.user_start, enc_str(&text)));
                     st.case(&bad.line(), "ok");
                     for _ in 0..per_grammar / 2 {
                         let n = r.below(7);
